@@ -4,6 +4,7 @@ Property theorems only.  The system is `Pipe.step` (Model/Pipe.lean) instantiate
 read off the stage descriptors that sxfacts regenerates from generator.go / engine.go / sender.go /
 memory.go (`Generated.packetTopology`); the side conditions are decided on that data.
 -/
+import SxVerif.Proofs.ConcPacketTerm
 import SxVerif.Proofs.ConcPacket
 import SxVerif.Proofs.ConcPacketBytes
 import SxVerif.Proofs.ConcPacketProgress
@@ -93,6 +94,40 @@ theorem C07_no_write_after_done (inp : Input) (s : Sys) (h : Reachable cfg inp s
 theorem C07_progress_full (inp : Input) (s : Sys) (h : ReachableNC cfg inp s) :
     Terminated s ∨ ∃ ev, ev ≠ Event.cancel ∧ (step cfg inp s ev).isSome = true :=
   packet_progress (wf_of_sideConds side_conditions) (capsPos_of_sideConds side_conditions) h
+
+/-- the weight of the sender's calls on a good packet in the current tree (`WritePacketData`, then
+    `FreeSerializeBuffer`): 7 -/
+theorem sender_calls_weight : callsW cfg.senderCalls = 7 := by decide
+
+/-- **every execution is finite, with an explicit bound** — no fairness, no hypothesis on the schedule: along ANY
+    event sequence the step function accepts from the initial state (any interleaving of the N workers, the
+    multiplexers, the closers, the sender, the receiver, the error consumer and the garbage collector; cancelled
+    anywhere, any number of times, or never), the number of steps other than `cancel` is at most
+    `22·|requests| + 4·|receiver errors| + 4·N + 13`.  A potential (`Proofs/ConcPacketTerm.pot`) drops with every
+    such step, in every state.  So no process of the packet pipeline can spin: what does not end is blocked. -/
+theorem C07_steps_bounded (inp : Input) (evs : List Event) (s : Sys) (h : run cfg inp (init inp) evs = some s) :
+    nonCancel evs ≤ 22 * inp.reqs.length + 4 * inp.rcvErrs.length + 4 * inp.n + 13 := by
+  have hb := run_bound evs (init inp) s h
+  have hi := pot_init cfg inp
+  rw [sender_calls_weight] at hi
+  omega
+
+/-- **an uncancelled run ends, and ends complete**: an execution without `cancel` that cannot be extended (no step
+    other than `cancel` is enabled where it stopped) has at most `22·|requests| + 4·|receiver errors| + 4·N + 13`
+    steps and has `Terminated`: every process returned, every stream drained — and then (`C07_final_full`) every good
+    request's frame has been written once and every error consumed.  `C07_progress_full` says such an execution is
+    never stuck earlier; this is the liveness half of "it does exit" with the number of steps in closed form.
+    (Steps, not time: that an enabled step is taken is the scheduler's part; that `WritePacketData` returns is the
+    kernel's.) -/
+theorem C07_uncancelled_run_ends (inp : Input) (evs : List Event) (s : Sys) (hnc : Event.cancel ∉ evs)
+    (h : run cfg inp (init inp) evs = some s) (hmax : ∀ ev, ev ≠ Event.cancel → step cfg inp s ev = none) :
+    Terminated s ∧ evs.length ≤ 22 * inp.reqs.length + 4 * inp.rcvErrs.length + 4 * inp.n + 13 := by
+  refine ⟨?_, ?_⟩
+  · rcases C07_progress_full inp s (reachableNC_run evs _ s ReachableNC.init hnc h) with ht | ⟨ev, hne, hs⟩
+    · exact ht
+    · simp [hmax ev hne] at hs
+  · have := C07_steps_bounded inp evs s h
+    rwa [nonCancel_of_not_mem evs hnc] at this
 
 -- non-vacuity: the reference topology satisfies the side conditions, and a concrete run (2 workers, a good
 -- request, an error request, a failing build; the write fails) is accepted by the step function and ends
